@@ -243,7 +243,7 @@ def run(ctx):
             # chi^2: first-order effect of the accuracy delta of the model log-fluxes held by the fitter
             # (float32 memmap for cube packages: fit() always memory-maps them; 1e-9 convolution agreement otherwise)
             lm = np.asarray(logm[m0] if mode == '2d' else logm[m0, jref[m0]], float)
-            delta = 3e-7 * (1 + float(np.max(np.abs(lm)))) if style == 'v2' else 2e-9
+            delta = 3e-7 * (1 + float(np.max(np.abs(lm))))       # fit() builds its own fitter: single-precision storage is allowed for in every format
             resv = np.asarray(logf, float) - lm - a_ref[m0] * k + (2 * s_ref[m0] if mode == '2d' else 0.0)
             ctol = 1e-9 * (1 + chi_ref[m0]) + float(np.sum(w * (2 * np.abs(resv) * delta + delta ** 2)))
             tolA = 1e-7 * (1 + abs(a_ref[m0])) + 3 * delta * gA
